@@ -344,3 +344,132 @@ func scenarioStaleHighQCAcrossRootUpdate(attack bool, newRoot uint64, verbose bo
 	say("   locks at the end:%s", s.locks())
 	return n, story, nil
 }
+
+// scenarioStaleBlockHashCache: found as a counterexample to the agreement theorem on the model (proof-bft), replayed here.
+// A replica accepts, in an ELECTION vote that forwards a higher valid lock, whatever block the SENDER attached to the vote
+// itself (handleHighQCVDFAndEvidence: b.Block, b.Results = vote.Qc.Block, vote.Qc.Results) and the block-hash cache is not
+// reset when b.Block is assigned. After X was committed at replica 0 and replicas 1, 2 are locked on X, the Byzantine validator
+// plants block Y in their b.Block; the next message makes GetBlockHash cache hash(Y); in PROPOSE_VOTE they check SafeNode on
+// the re-proposed X (same as locked: passes) but sign hash(Y) from the stale cache. The resulting certificate for Y locks them
+// on Y, and Y is committed in the following round.
+func scenarioStaleBlockHashCache(attack bool, verbose bool) (n *bftsim.Net, story []string, err error) {
+	n, err = bftsim.New([]uint64{100, 100, 100, 100}, 5)
+	if err != nil {
+		return
+	}
+	n.Verbose = verbose
+	s := &script{n: n}
+	say := func(f string, a ...any) { story = append(story, fmt.Sprintf(f, a...)) }
+	ra, ok := s.electByz(80)
+	if !ok {
+		return n, story, fmt.Errorf("byzantine replica never elected (phase a)")
+	}
+	X, ok := s.proposeAndCollect()
+	if !ok {
+		return n, story, fmt.Errorf("no certificate for X")
+	}
+	n.Flush(nil) // PRECOMMIT delivered
+	s.tick(nil)  // PRECOMMIT_VOTE: lock X
+	s.tick(func(e *bftsim.Env) bool { return e.To == 0 })
+	s.tick(dropAll)
+	say("round %d: X=%s decided, COMMIT reaches replica 0 only (commits: %d); locks:%s", ra, lib.BytesToTruncatedString(X.QC.BlockHash), len(n.Commits), s.locks())
+	if len(n.Commits) != 1 {
+		return n, story, fmt.Errorf("replica 0 did not commit X")
+	}
+	s.failRound()
+	rb, ok := s.electByz(80)
+	if !ok {
+		return n, story, fmt.Errorf("byzantine replica never elected (phase b)")
+	}
+	n.Reps[byz].B.HighQC = withProposal(X.QC, X)
+	X2, ok := s.proposeAndCollect()
+	if !ok {
+		return n, story, fmt.Errorf("no second certificate for X")
+	}
+	say("round %d: Byzantine leader re-proposes X (legitimately), obtains the PROPOSE_VOTE certificate of round %d, withholds PRECOMMIT", rb, X2.QC.Header.Round)
+	s.failRound()
+	rc, ok := s.electByz(80)
+	if !ok {
+		return n, story, fmt.Errorf("byzantine replica never elected (phase c)")
+	}
+	bb := n.Reps[byz].B
+	yBlock, _ := n.MakeProposal(byz, 987654)
+	yHash := bb.BlockToHash(yBlock)
+	if attack {
+		v := bb.View.Copy()
+		v.Phase = bft.ElectionVote
+		n.Inject(byz, &bft.Message{Qc: &lib.QuorumCertificate{Header: v, ProposerKey: n.Keys[byz].Pub, Block: yBlock, Results: X.Results},
+			HighQc: &lib.QuorumCertificate{Header: X2.QC.Header, BlockHash: X2.QC.BlockHash, ResultsHash: X2.QC.ResultsHash, ProposerKey: X2.QC.ProposerKey, Signature: X2.QC.Signature}}, 1, 2)
+		n.Flush(nil)
+		say("round %d: Byzantine validator sends replicas 1, 2 an ELECTION vote forwarding the (valid, higher) lock on X and carrying block Y=%s in the vote itself", rc, lib.BytesToTruncatedString(yHash))
+	}
+	bb.HighQC = withProposal(X2.QC, X)
+	s.tick(nil) // PROPOSE: X re-proposed with its certificate
+	for _, i := range s.live() {
+		n.Step(i) // PROPOSE_VOTE
+	}
+	var votes []*bft.Message
+	for _, e := range n.Bag {
+		if e.From != byz && e.Replica && e.Phase == bft.ProposeVote {
+			votes = append(votes, e.Decode())
+		}
+	}
+	n.Bag = nil
+	if len(votes) < 2 {
+		return n, story, fmt.Errorf("replicas 1, 2 did not vote")
+	}
+	say("round %d: replicas 1, 2 check SafeNode on the re-proposed X and send PROPOSE votes for block hash %s", rc, lib.BytesToTruncatedString(votes[0].Qc.BlockHash))
+	if !attack {
+		return n, story, nil
+	}
+	// the Byzantine leader aggregates the two votes with its own signature over the same payload
+	payload := &lib.QuorumCertificate{Header: votes[0].Qc.Header, BlockHash: votes[0].Qc.BlockHash, ResultsHash: votes[0].Qc.ResultsHash, ProposerKey: votes[0].Qc.ProposerKey}
+	mk := n.VS.MultiKey.Copy()
+	for _, v := range votes {
+		if e := mk.AddSigner(v.Signature.Signature, n.IndexOf(v.Signature.PublicKey)); e != nil {
+			return n, story, fmt.Errorf("AddSigner: %v", e)
+		}
+	}
+	if e := mk.AddSigner(n.Keys[byz].Priv.Sign(payload.SignBytes()), byz); e != nil {
+		return n, story, fmt.Errorf("AddSigner: %v", e)
+	}
+	agg, e := mk.AggregateSignatures()
+	if e != nil {
+		return n, story, fmt.Errorf("aggregate: %v", e)
+	}
+	qcY := &lib.QuorumCertificate{Header: payload.Header, BlockHash: payload.BlockHash, ResultsHash: payload.ResultsHash, ProposerKey: payload.ProposerKey,
+		Signature: &lib.AggregateSignature{Signature: agg, Bitmap: mk.Bitmap()}}
+	hdr := bb.View.Copy()
+	hdr.Phase = bft.Precommit
+	n.Inject(byz, &bft.Message{Header: hdr, Qc: qcY, RcBuildHeight: 5}, 1, 2)
+	n.Flush(nil)
+	bb.Phase = bft.PrecommitVote
+	for _, i := range []int{1, 2} {
+		n.Step(i) // PRECOMMIT (nothing to do for a replica)
+		n.Step(i) // PRECOMMIT_VOTE: lock
+	}
+	n.Bag = nil
+	say("round %d: PRECOMMIT with the certificate for Y; locks:%s", rc, s.locks())
+	s.failRound()
+	// the lock the replicas forward in their ELECTION votes is not covered by the vote's signature: the Byzantine leader strips
+	// it before counting the votes (its own honest code would refuse the inconsistent block attached to it)
+	n.Rewrite = func(e *bftsim.Env) {
+		if e.To == byz && e.Replica && e.Phase == bft.ElectionVote {
+			m := e.Decode()
+			m.HighQc = nil
+			e.Bytes, _ = lib.Marshal(m)
+		}
+	}
+	rd, ok := s.electByz(80)
+	if !ok {
+		return n, story, fmt.Errorf("byzantine replica never elected (phase d)")
+	}
+	bb.HighQC = &lib.QuorumCertificate{Header: qcY.Header, BlockHash: qcY.BlockHash, ResultsHash: qcY.ResultsHash, ProposerKey: qcY.ProposerKey, Signature: qcY.Signature,
+		Block: yBlock, Results: X.Results}
+	bb.Block, bb.Results, bb.BlockHash = nil, nil, nil
+	say("round %d: Byzantine leader proposes Y justified by that certificate", rd)
+	for k := 0; k < 6; k++ {
+		s.tick(nil)
+	}
+	return n, story, nil
+}
